@@ -10,6 +10,7 @@ import RioModel.Model.FilterDom
 import RioModel.Proofs.FilterHtml
 set_option linter.unusedSimpArgs false
 set_option linter.unusedVariables false
+set_option linter.unusedSectionVars false
 
 namespace Rio.Filter
 
@@ -775,6 +776,17 @@ theorem editListD_append (dec : Node → Bytes → Bool) (op : EditOp) (s' : Opt
   | nil => simp [editListD]
   | cons n ns ih => simp [editListD, ih]
 
+theorem editNodeD_hit (dec : Node → Bytes → Bool) (op : EditOp) (s' : Option Bytes) (ins : Node)
+    (p q : Bytes) (qs : List Bytes) (aw : Bool) (d a : Bytes) (knd : ElKind) (cs : List Node) :
+    editNodeD dec op s' ins p (q :: qs) aw (.el p d a knd cs) =
+      .el p d a knd (editListD dec op s' ins q qs false cs) := by
+  simp [editNodeD]
+
+theorem editNodeD_target (dec : Node → Bytes → Bool) (op : EditOp) (s' : Option Bytes) (ins : Node)
+    (p : Bytes) (aw : Bool) (d a : Bytes) (knd : ElKind) (cs : List Node) :
+    editNodeD dec op s' ins p [] aw (.el p d a knd cs) = applyOpD dec op s' ins (.el p d a knd cs) := by
+  simp [editNodeD]
+
 /-! ### an element of the path and everything below it (append / prepend) -/
 
 /-- domain of an element named `cur` whose remaining path is `after` -/
@@ -793,8 +805,7 @@ theorem elem_AP (hk : k = .append ∨ k = .prepend) (hvt : VtLossless vt) {P : L
           out ++ serialize (editNodeD (decOf ev) (opOf k) (selN sel) (.verb content m) cur after false
             (.el cur d at_ knd cs)))
   | [], before, cur, d, at_, knd, cs, lv, out, h, hc, _ => by
-    rw [target_AP tk ev k sel content vt hk hvt hc h lv before out m]
-    simp [editNodeD]
+    rw [target_AP tk ev k sel content vt hk hvt hc h lv before out m, editNodeD_target]
   | a :: rest, before, cur, d, at_, knd, cs, lv, out, h, hc, ha => by
     obtain ⟨hknd, hvoid, pre, d', at', knd', cs', post, hcs, hpre, hpost, hch⟩ := h
     subst hknd
@@ -803,10 +814,9 @@ theorem elem_AP (hk : k = .append ∨ k = .prepend) (hvt : VtLossless vt) {P : L
     rw [tokensOf_el_normal, foldl_cons_append_single, step_start_down tk ev k sel content lv before cur a rest d at_ out hvoid]
     rw [tokensOfList_append, tokensOfList_cons, List.foldl_append, List.foldl_append]
     -- the free siblings before the child
-    rw [fold_neutral tk ev _ hpre _ _ (stNames_stG k sel content _ _ _ _ haP
-      (fun n hn => by simp at hn; exact hn ▸ hc))]
     have hS : stS k sel content (cur :: before) a rest = stG k sel content (some cur) (cur :: before) a rest := rfl
-    rw [hS, push_stG]
+    rw [hS, fold_neutral tk ev _ hpre _ _ (stNames_stG k sel content _ _ _ _ haP
+      (fun n hn => by simp at hn; exact hn ▸ hc)), push_stG]
     -- the child
     rw [elem_AP hk hvt m rest (cur :: before) a d' at' knd' cs' (some cur) _ hch haP
       (fun x hx => ha x (List.mem_cons_of_mem _ hx))]
@@ -816,13 +826,568 @@ theorem elem_AP (hk : k = .append ∨ k = .prepend) (hvt : VtLossless vt) {P : L
       step_end_up tk ev k sel content before cur a rest d]
     -- the reference edit
     congr 1
-    have hq : (cur == cur) = true := by simp
-    simp only [editNodeD, hq, if_true]
-    rw [editListD_append, editListD, editListD_free_child vt _ _ _ _ haP rest pre hpre,
+    rw [editNodeD_hit, editListD_append, editListD, editListD_free_child vt _ _ _ _ haP rest pre hpre,
       editListD_free_child vt _ _ _ _ haP rest post hpost]
     rw [rawsOf_tokensOfList vt hvt pre, rawsOf_tokensOfList vt hvt post]
     simp only [serialize, serializeList_append, serializeList, startTok, endTok]
     simp [List.append_assoc]
+
+/-! ### the first path element is looked for anywhere in the document (append / prepend) -/
+
+mutual
+  /-- domain of a document for an append / prepend filter with path `p1 :: ps` (`P` = the path names):
+  verbatim pieces and foreign elements carry no path name, every `p1` element satisfies `ChildDomAP` -/
+  def AnyDomAP (P : List Bytes) (p1 : Bytes) (ps : List Bytes) : Node → Prop
+    | .verb raw _ => ∀ t ∈ vt raw, NeutralTok P t
+    | .el nm d at_ knd cs =>
+      if nm = p1 then ChildDomAP tk k sel vt P ps p1 d at_ knd cs
+      else nm ∉ P ∧
+        (match knd with
+         | .normal => AnyDomAPList P p1 ps cs
+         | _ => True)
+  def AnyDomAPList (P : List Bytes) (p1 : Bytes) (ps : List Bytes) : List Node → Prop
+    | [] => True
+    | n :: ns => AnyDomAP P p1 ps n ∧ AnyDomAPList P p1 ps ns
+end
+
+theorem neutral_of_name {P : List Bytes} {t : Tok} (h : t.name ∉ P) : NeutralTok P t := fun _ => h
+
+theorem neutral_of_kind {P : List Bytes} {t : Tok} (h : isTagKind t.kind = false) : NeutralTok P t :=
+  fun hk => by rw [h] at hk; cases hk
+
+theorem neutral_textToks (P : List Bytes) (bs : Bytes) : ∀ t ∈ textToks bs, NeutralTok P t := by
+  intro t ht
+  unfold textToks at ht
+  split at ht
+  · cases ht
+  · simp at ht; subst ht; exact neutral_of_kind (by simp [isTagKind])
+
+mutual
+  theorem any_AP (hk : k = .append ∨ k = .prepend) (hvt : VtLossless vt) {P : List Bytes} (m : List Bytes)
+      (p1 : Bytes) (ps : List Bytes) (hp1 : p1 ∈ P) (hps : ∀ a ∈ ps, a ∈ P) :
+      ∀ (n : Node) (out : Bytes), AnyDomAP tk k sel vt P p1 ps n →
+        (tokensOf vt n).foldl (stepTok tk ev) (stG k sel content none [] p1 ps, out) =
+          (stG k sel content none [] p1 ps,
+            out ++ serialize (editNodeD (decOf ev) (opOf k) (selN sel) (.verb content m) p1 ps true n))
+    | .verb raw mk, out, h => by
+      have hS := stNames_stG k sel content (P := P) none [] p1 ps hp1 (fun n hn => by cases hn)
+      simp only [AnyDomAP] at h
+      rw [tokensOf, fold_neutral tk ev _ h _ _ hS, push_stG, hvt raw]
+      simp [editNodeD, serialize]
+    | .el nm d at_ knd cs, out, h => by
+      have hS := stNames_stG k sel content (P := P) none [] p1 ps hp1 (fun n hn => by cases hn)
+      unfold AnyDomAP at h
+      by_cases hnm : nm = p1
+      · subst hnm
+        rw [if_pos rfl] at h
+        have := elem_AP tk ev k sel content vt hk hvt m ps [] nm d at_ knd cs none out h hp1 hps
+        rw [this]
+        have e1 : stRet k sel content [] nm ps = stG k sel content none [] nm ps := rfl
+        rw [e1]
+        congr 2
+        cases ps <;> simp [editNodeD]
+      · rw [if_neg hnm] at h
+        obtain ⟨hnP, hrec⟩ := h
+        have hb : (nm == p1) = false := by
+          cases hb : (nm == p1) with
+          | false => rfl
+          | true => exact absurd (beq_iff_eq.mp hb) hnm
+        cases knd with
+        | selfClosing =>
+          have hn : ∀ t ∈ tokensOf vt (.el nm d at_ .selfClosing cs), NeutralTok P t := by
+            intro t ht; simp [tokensOf] at ht; subst ht; exact neutral_of_name hnP
+          rw [fold_neutral tk ev _ hn _ _ hS, push_stG, rawsOf_tokensOf vt hvt]
+          simp [editNodeD, hb, serialize]
+        | void =>
+          have hn : ∀ t ∈ tokensOf vt (.el nm d at_ .void cs), NeutralTok P t := by
+            intro t ht; simp [tokensOf] at ht; subst ht; exact neutral_of_name hnP
+          rw [fold_neutral tk ev _ hn _ _ hS, push_stG, rawsOf_tokensOf vt hvt]
+          simp [editNodeD, hb, serialize]
+        | raw =>
+          have hn : ∀ t ∈ tokensOf vt (.el nm d at_ .raw cs), NeutralTok P t := by
+            intro t ht
+            simp only [tokensOf, List.mem_cons, List.mem_append, List.not_mem_nil, or_false] at ht
+            rcases ht with e | e | e
+            · subst e; exact neutral_of_name hnP
+            · exact neutral_textToks P _ t e
+            · subst e; exact neutral_of_name hnP
+          rw [fold_neutral tk ev _ hn _ _ hS, push_stG, rawsOf_tokensOf vt hvt]
+          simp [editNodeD, hb]
+        | normal =>
+          simp only at hrec
+          rw [tokensOf_el_normal, foldl_cons_append_single]
+          have hst : NeutralTok P (startTok nm d at_) := neutral_of_name hnP
+          have hen : NeutralTok P (endTok nm d) := neutral_of_name hnP
+          rw [stepTok_neutral tk ev hS hst, push_stG,
+            anyList_AP hk hvt m p1 ps hp1 hps cs _ hrec,
+            stepTok_neutral tk ev hS hen, push_stG]
+          congr 1
+          simp [editNodeD, hb, serialize, startTok, endTok, List.append_assoc]
+  theorem anyList_AP (hk : k = .append ∨ k = .prepend) (hvt : VtLossless vt) {P : List Bytes} (m : List Bytes)
+      (p1 : Bytes) (ps : List Bytes) (hp1 : p1 ∈ P) (hps : ∀ a ∈ ps, a ∈ P) :
+      ∀ (ns : List Node) (out : Bytes), AnyDomAPList tk k sel vt P p1 ps ns →
+        (tokensOfList vt ns).foldl (stepTok tk ev) (stG k sel content none [] p1 ps, out) =
+          (stG k sel content none [] p1 ps,
+            out ++ serializeList (editListD (decOf ev) (opOf k) (selN sel) (.verb content m) p1 ps true ns))
+    | [], out, _ => by simp [tokensOfList, editListD, serializeList]
+    | n :: ns, out, h => by
+      unfold AnyDomAPList at h
+      rw [tokensOfList_cons, List.foldl_append, any_AP hk hvt m p1 ps hp1 hps n out h.1,
+        anyList_AP hk hvt m p1 ps hp1 hps ns _ h.2]
+      simp [editListD, serializeList, List.append_assoc]
+end
+
+/-! ### replace: the target element -/
+
+/-- what the theorems ask of a replace target: a normal / raw-text element whose content carries no
+path name, a void element (start tag only, void name), or a self-closing tag -/
+def TargetR (P : List Bytes) (cur : Bytes) (knd : ElKind) (cs : List Node) : Prop :=
+  match knd with
+  | .normal => isVoid cur = false ∧ ∀ t ∈ innerToks vt .normal cs, NeutralTok P t
+  | .raw => isVoid cur = false
+  | .void => isVoid cur = true
+  | .selfClosing => True
+
+theorem repOut_eq (n : Node) (m : List Bytes) :
+    repOut ev sel content (serialize n) =
+      serialize (applyOpD (decOf ev) .replace (selN sel) (.verb content m) n) := by
+  unfold repOut applyOpD
+  cases hs : selOn sel with
+  | false => rw [selN_of_off hs]; simp [serialize]
+  | true =>
+    rw [selN_of_on hs]
+    simp only [Bool.not_true, Bool.false_or, Option.map_some, Option.getD_some, decOf]
+    rcases Bool.eq_false_or_eq_true (ev (serialize n) (sel.getD [])) with h | h <;> simp [h, serialize]
+
+theorem target_R (hvt : VtLossless vt) {P : List Bytes} {cur d at_ : Bytes} {knd : ElKind} {cs : List Node}
+    (hcP : cur ∈ P) (h : TargetR vt P cur knd cs) (lv : Option Bytes) (before : List Bytes) (out : Bytes)
+    (m : List Bytes) :
+    (tokensOf vt (.el cur d at_ knd cs)).foldl (stepTok tk ev) (stG .replace sel content lv before cur [], out) =
+      (stX .replace sel content before cur,
+        out ++ serialize (applyOpD (decOf ev) .replace (selN sel) (.verb content m) (.el cur d at_ knd cs))) := by
+  rw [← repOut_eq]
+  cases knd with
+  | selfClosing =>
+    simp only [tokensOf, List.foldl_cons, List.foldl_nil]
+    rw [rep_self]; simp [serialize, selfTok]
+  | void =>
+    simp only [tokensOf, List.foldl_cons, List.foldl_nil]
+    rw [rep_void tk ev sel content lv before cur d at_ out h]; simp [serialize, startTok]
+  | raw =>
+    have hn : ∀ t ∈ innerToks vt .raw cs, NeutralTok P t := neutral_textToks P _
+    rw [tokensOf_el_inner vt cur d at_ .raw cs (Or.inr rfl), foldl_cons_append_single,
+      rep_start tk ev sel content lv before cur d at_ out h,
+      fold_neutral tk ev _ hn _ _ (stNames_stB _ _ _ true before cur _ hcP), push_stB, rep_end,
+      rawsOf_innerToks vt hvt, serialize_el_inner cur d at_ .raw cs (Or.inr rfl)]
+  | normal =>
+    rw [tokensOf_el_inner vt cur d at_ .normal cs (Or.inl rfl), foldl_cons_append_single,
+      rep_start tk ev sel content lv before cur d at_ out h.1,
+      fold_neutral tk ev _ h.2 _ _ (stNames_stB _ _ _ true before cur _ hcP), push_stB, rep_end,
+      rawsOf_innerToks vt hvt, serialize_el_inner cur d at_ .normal cs (Or.inl rfl)]
+
+/-- is the node an element named `cur`? -/
+def hitB (cur : Bytes) : Node → Bool
+  | .el nm _ _ _ _ => nm == cur
+  | _ => false
+
+/-- a list of siblings each of which is a replace target or free -/
+def TargetsDom (P : List Bytes) (cur : Bytes) : List Node → Prop
+  | [] => True
+  | n :: ns =>
+    (match n with
+     | .el nm _ _ knd cs => if nm = cur then TargetR vt P cur knd cs else ∀ t ∈ tokensOf vt n, NeutralTok P t
+     | .verb raw _ => ∀ t ∈ vt raw, NeutralTok P t) ∧ TargetsDom P cur ns
+
+theorem stX_eq_stG (before : List Bytes) (cur : Bytes) :
+    stX k sel content before cur = stG k sel content none before cur [] := rfl
+
+/-- **repeated sibling targets are all replaced** (child semantics) -/
+theorem targets_R (hvt : VtLossless vt) {P : List Bytes} {cur : Bytes} (hcP : cur ∈ P) (before : List Bytes)
+    (m : List Bytes) :
+    ∀ (ns : List Node) (lv : Option Bytes) (out : Bytes), (∀ n, lv = some n → n ∈ P) → TargetsDom vt P cur ns →
+      (tokensOfList vt ns).foldl (stepTok tk ev) (stG .replace sel content lv before cur [], out) =
+        ((if ns.any (hitB cur) then stX .replace sel content before cur
+          else stG .replace sel content lv before cur []),
+         out ++ serializeList (editListD (decOf ev) .replace (selN sel) (.verb content m) cur [] false ns))
+  | [], lv, out, _, _ => by simp [tokensOfList, editListD, serializeList]
+  | n :: ns, lv, out, hl, h => by
+    obtain ⟨hn, hns⟩ := h
+    rw [tokensOfList_cons, List.foldl_append]
+    have hS := stNames_stG VKind.replace sel content (P := P) lv before cur [] hcP hl
+    cases n with
+    | verb raw mk =>
+      simp only at hn
+      rw [tokensOf, fold_neutral tk ev _ hn _ _ hS, push_stG, targets_R hvt hcP before m ns lv _ hl hns, hvt raw]
+      simp [hitB, editListD, editNodeD, serializeList, serialize, List.append_assoc]
+    | el nm d at_ knd cs =>
+      simp only at hn
+      by_cases hnm : nm = cur
+      · subst hnm
+        rw [if_pos rfl] at hn
+        rw [target_R tk ev sel content vt hvt hcP hn lv before out m, stX_eq_stG,
+          targets_R hvt hcP before m ns none _ (fun _ h => by cases h) hns]
+        simp [hitB, editListD, editNodeD_target, serializeList, List.append_assoc, stX_eq_stG]
+      · rw [if_neg hnm] at hn
+        have hb : (nm == cur) = false := by
+          cases hb : (nm == cur) with
+          | false => rfl
+          | true => exact absurd (beq_iff_eq.mp hb) hnm
+        rw [fold_neutral tk ev _ hn _ _ hS, push_stG, targets_R hvt hcP before m ns lv _ hl hns,
+          rawsOf_tokensOf vt hvt]
+        simp [hitB, hb, editListD, editNodeD, serializeList, List.append_assoc]
+
+/-! ### replace: an element of the path and everything below it -/
+
+/-- where the zipper ends up when it has been advanced to the last path element -/
+def zEndBefore : List Bytes → Bytes → List Bytes → List Bytes
+  | before, _, [] => before
+  | before, cur, a :: rest => zEndBefore (cur :: before) a rest
+
+def zEndCur : Bytes → List Bytes → Bytes
+  | cur, [] => cur
+  | _, a :: rest => zEndCur a rest
+
+theorem zEndCur_mem : ∀ (cur : Bytes) (after : List Bytes), zEndCur cur after ∈ cur :: after
+  | cur, [] => by simp [zEndCur]
+  | cur, a :: rest => by
+    have := zEndCur_mem a rest
+    simp only [zEndCur]
+    exact List.mem_cons_of_mem _ this
+
+def ChildDomR (P : List Bytes) : List Bytes → Bytes → ElKind → List Node → Prop
+  | [], cur, knd, cs => TargetR vt P cur knd cs
+  | [a], cur, knd, cs =>
+    knd = .normal ∧ isVoid cur = false ∧ TargetsDom vt P a cs ∧ cs.any (hitB a) = true
+  | a :: r :: rs, cur, knd, cs =>
+    knd = .normal ∧ isVoid cur = false ∧
+    ∃ pre d' at' knd' cs' post, cs = pre ++ Node.el a d' at' knd' cs' :: post ∧
+      FreeL vt P pre ∧ FreeL vt P post ∧ ChildDomR P (r :: rs) a knd' cs'
+
+theorem NeutralTok.mono {P Q : List Bytes} {t : Tok} (h : NeutralTok P t) (hq : ∀ x ∈ Q, x ∈ P) :
+    NeutralTok Q t := fun hk hm => h hk (hq _ hm)
+
+theorem stNames_stX (before : List Bytes) (cur : Bytes) : StNames [cur] (stX k sel content before cur) :=
+  ⟨fun n h => by simp [stX, stG] at h; simp [h], fun n h => by simp [stX, stG] at h,
+   fun l h => by simp [stX, stG] at h⟩
+
+theorem push_stX (before : List Bytes) (cur out d : Bytes) :
+    push (stX k sel content before cur) out d = (stX k sel content before cur, out ++ d) := by
+  simp [push, stX, stG]
+
+theorem elem_R (hvt : VtLossless vt) {P : List Bytes} (m : List Bytes) :
+    ∀ (after before : List Bytes) (cur d at_ : Bytes) (knd : ElKind) (cs : List Node) (lv : Option Bytes)
+      (out : Bytes), ChildDomR vt P after cur knd cs → cur ∈ P → (∀ a ∈ after, a ∈ P) →
+      (cur :: after).Nodup → (∀ n, lv = some n → n ∈ P) →
+      (tokensOf vt (.el cur d at_ knd cs)).foldl (stepTok tk ev) (stG .replace sel content lv before cur after, out) =
+        (stX .replace sel content (zEndBefore before cur after) (zEndCur cur after),
+          out ++ serialize (editNodeD (decOf ev) .replace (selN sel) (.verb content m) cur after false
+            (.el cur d at_ knd cs)))
+  | [], before, cur, d, at_, knd, cs, lv, out, h, hc, _, _, _ => by
+    rw [target_R tk ev sel content vt hvt hc h lv before out m, editNodeD_target]
+    rfl
+  | [a], before, cur, d, at_, knd, cs, lv, out, h, hc, ha, hnd, _ => by
+    obtain ⟨hknd, hvoid, htd, hany⟩ := h
+    subst hknd
+    have haP : a ∈ P := ha a (by simp)
+    have hne : cur ≠ a := by
+      intro e; subst e; simp at hnd
+    rw [tokensOf_el_normal, foldl_cons_append_single,
+      step_start_down tk ev .replace sel content lv before cur a [] d at_ out hvoid]
+    have hS : stS VKind.replace sel content (cur :: before) a [] =
+        stG VKind.replace sel content (some cur) (cur :: before) a [] := rfl
+    rw [hS, targets_R tk ev sel content vt hvt haP (cur :: before) m cs (some cur) _
+      (fun n hn => by simp at hn; exact hn ▸ hc) htd, hany]
+    simp only [if_true]
+    have hen : NeutralTok [a] (endTok cur d) := neutral_of_name (by simp [endTok, hne])
+    rw [stepTok_neutral tk ev (stNames_stX _ _ _ _ _) hen, push_stX, editNodeD_hit]
+    simp [zEndBefore, zEndCur, serialize, startTok, endTok, List.append_assoc]
+  | a :: r :: rs, before, cur, d, at_, knd, cs, lv, out, h, hc, ha, hnd, _ => by
+    obtain ⟨hknd, hvoid, pre, d', at', knd', cs', post, hcs, hpre, hpost, hch⟩ := h
+    subst hknd
+    subst hcs
+    have haP : a ∈ P := ha a (by simp)
+    have hnd' : (a :: r :: rs).Nodup := (List.nodup_cons.mp hnd).2
+    have htm := zEndCur_mem a (r :: rs)
+    have htP : zEndCur a (r :: rs) ∈ P := ha _ htm
+    have hne : cur ≠ zEndCur a (r :: rs) := by
+      intro e; exact (List.nodup_cons.mp hnd).1 (e ▸ htm)
+    rw [tokensOf_el_normal, foldl_cons_append_single,
+      step_start_down tk ev .replace sel content lv before cur a (r :: rs) d at_ out hvoid]
+    rw [tokensOfList_append, tokensOfList_cons, List.foldl_append, List.foldl_append]
+    have hS : stS VKind.replace sel content (cur :: before) a (r :: rs) =
+        stG VKind.replace sel content (some cur) (cur :: before) a (r :: rs) := rfl
+    rw [hS, fold_neutral tk ev _ hpre _ _ (stNames_stG VKind.replace sel content _ _ _ _ haP
+      (fun n hn => by simp at hn; exact hn ▸ hc)), push_stG]
+    rw [elem_R hvt m (r :: rs) (cur :: before) a d' at' knd' cs' (some cur) _ hch haP
+      (fun x hx => ha x (List.mem_cons_of_mem _ hx)) hnd' (fun n hn => by simp at hn; exact hn ▸ hc)]
+    have hpost' : ∀ t ∈ tokensOfList vt post, NeutralTok [zEndCur a (r :: rs)] t :=
+      fun t ht => (hpost t ht).mono (fun x hx => by simp at hx; exact hx ▸ htP)
+    rw [fold_neutral tk ev _ hpost' _ _ (stNames_stX _ _ _ _ _), push_stX]
+    have hen : NeutralTok [zEndCur a (r :: rs)] (endTok cur d) :=
+      neutral_of_name (by simp [endTok, hne])
+    rw [stepTok_neutral tk ev (stNames_stX _ _ _ _ _) hen, push_stX]
+    congr 1
+    rw [editNodeD_hit (decOf ev) .replace (selN sel) (.verb content m) cur a (r :: rs) false d at_ .normal,
+      editListD_append, editListD, editListD_free_child vt _ _ _ _ haP (r :: rs) pre hpre,
+      editListD_free_child vt _ _ _ _ haP (r :: rs) post hpost]
+    rw [rawsOf_tokensOfList vt hvt pre, rawsOf_tokensOfList vt hvt post]
+    simp only [serialize, serializeList_append, serializeList, startTok, endTok]
+    simp [List.append_assoc]
+
+/-! ### searching the first path element: generic lemmas -/
+
+mutual
+  /-- the reference edit (anywhere semantics) does not change the bytes of a free subtree -/
+  theorem ser_edit_free (dec : Node → Bytes → Bool) (op : EditOp) (s' : Option Bytes) (ins : Node)
+      {P : List Bytes} {p : Bytes} (hp : p ∈ P) (ps : List Bytes) :
+      ∀ n : Node, (∀ t ∈ tokensOf vt n, NeutralTok P t) →
+        serialize (editNodeD dec op s' ins p ps true n) = serialize n
+    | .verb r m, _ => by simp [editNodeD]
+    | .el nm d a knd cs, h => by
+      have hnm : nm ∉ P := name_not_mem_of_free vt h
+      have hb : (nm == p) = false := by
+        cases hb : (nm == p) with
+        | false => rfl
+        | true => exact absurd ((beq_iff_eq.mp hb) ▸ hp) hnm
+      cases knd with
+      | selfClosing => simp [editNodeD, hb, serialize]
+      | void => simp [editNodeD, hb, serialize]
+      | raw => simp [editNodeD, hb]
+      | normal =>
+        have hcs : FreeL vt P cs := by
+          intro t ht
+          apply h t
+          rw [tokensOf_el_normal]
+          exact List.mem_cons_of_mem _ (List.mem_append_left _ ht)
+        simp only [editNodeD, hb, Bool.false_eq_true, if_false, Bool.true_and, bne_iff_ne, ne_eq,
+          reduceCtorEq, not_false_eq_true, decide_true, if_true, serialize,
+          ser_edit_free_list dec op s' ins hp ps cs hcs]
+  theorem ser_edit_free_list (dec : Node → Bytes → Bool) (op : EditOp) (s' : Option Bytes) (ins : Node)
+      {P : List Bytes} {p : Bytes} (hp : p ∈ P) (ps : List Bytes) :
+      ∀ ns : List Node, FreeL vt P ns →
+        serializeList (editListD dec op s' ins p ps true ns) = serializeList ns
+    | [], _ => by simp [editListD]
+    | n :: ns, h => by
+      simp only [editListD, serializeList, ser_edit_free dec op s' ins hp ps n (FreeL.cons_head vt h),
+        ser_edit_free_list dec op s' ins hp ps ns (FreeL.cons_tail vt h)]
+end
+
+section generic
+variable (dec : Node → Bytes → Bool) (op : EditOp) (s' : Option Bytes) (ins : Node)
+variable (P : List Bytes) (p1 : Bytes) (ps : List Bytes)
+variable (Hit : Bytes → Bytes → ElKind → List Node → Prop)
+
+mutual
+  /-- every `p1` element (outside other `p1` elements and raw text) satisfies `Hit`, nothing else carries a path name -/
+  def AnyDomG : Node → Prop
+    | .verb raw _ => ∀ t ∈ vt raw, NeutralTok P t
+    | .el nm d at_ knd cs =>
+      if nm = p1 then Hit d at_ knd cs
+      else nm ∉ P ∧
+        (match knd with
+         | .normal => AnyDomGList cs
+         | _ => True)
+  def AnyDomGList : List Node → Prop
+    | [] => True
+    | n :: ns => AnyDomG n ∧ AnyDomGList ns
+end
+
+mutual
+  /-- exactly one `p1` element, satisfying `Hit`; everything else is free -/
+  def OneHit : Node → Prop
+    | .verb _ _ => False
+    | .el nm d at_ knd cs =>
+      if nm = p1 then Hit d at_ knd cs
+      else nm ∉ P ∧ knd = .normal ∧ OneHitL cs
+  def OneHitL : List Node → Prop
+    | [] => False
+    | n :: ns => (OneHit n ∧ FreeL vt P ns) ∨ ((∀ t ∈ tokensOf vt n, NeutralTok P t) ∧ OneHitL ns)
+end
+
+variable {A B : HtmlSt} {Q : List Bytes}
+variable (hvt : VtLossless vt) (hp1 : p1 ∈ P)
+variable (hA : StNames P A) (pushA : ∀ out d, push A out d = (A, out ++ d))
+variable (hB : StNames Q B) (pushB : ∀ out d, push B out d = (B, out ++ d)) (hQ : ∀ x ∈ Q, x ∈ P)
+variable (hhit : ∀ (d at_ : Bytes) (knd : ElKind) (cs : List Node) (out : Bytes), Hit d at_ knd cs →
+  (tokensOf vt (.el p1 d at_ knd cs)).foldl (stepTok tk ev) (A, out) =
+    (B, out ++ serialize (editNodeD dec op s' ins p1 ps true (.el p1 d at_ knd cs))))
+
+include hvt hp1 hA pushA hB pushB hQ hhit in
+mutual
+  theorem onehit_gen : ∀ (n : Node) (out : Bytes), OneHit vt P p1 Hit n →
+      (tokensOf vt n).foldl (stepTok tk ev) (A, out) =
+        (B, out ++ serialize (editNodeD dec op s' ins p1 ps true n))
+    | .verb _ _, _, h => by simp [OneHit] at h
+    | .el nm d at_ knd cs, out, h => by
+      unfold OneHit at h
+      by_cases hnm : nm = p1
+      · subst hnm
+        rw [if_pos rfl] at h
+        exact hhit d at_ knd cs out h
+      · rw [if_neg hnm] at h
+        obtain ⟨hnP, hknd, hrec⟩ := h
+        subst hknd
+        have hb : (nm == p1) = false := by
+          cases hb : (nm == p1) with
+          | false => rfl
+          | true => exact absurd (beq_iff_eq.mp hb) hnm
+        rw [tokensOf_el_normal, foldl_cons_append_single]
+        have hst : NeutralTok P (startTok nm d at_) := neutral_of_name hnP
+        have hen : NeutralTok Q (endTok nm d) := neutral_of_name (fun hm => hnP (hQ _ hm))
+        rw [stepTok_neutral tk ev hA hst, pushA, onehitL_gen cs _ hrec,
+          stepTok_neutral tk ev hB hen, pushB]
+        congr 1
+        simp [editNodeD, hb, serialize, startTok, endTok, List.append_assoc]
+  theorem onehitL_gen : ∀ (ns : List Node) (out : Bytes), OneHitL vt P p1 Hit ns →
+      (tokensOfList vt ns).foldl (stepTok tk ev) (A, out) =
+        (B, out ++ serializeList (editListD dec op s' ins p1 ps true ns))
+    | [], _, h => by simp [OneHitL] at h
+    | n :: ns, out, h => by
+      unfold OneHitL at h
+      rw [tokensOfList_cons, List.foldl_append]
+      rcases h with ⟨h1, h2⟩ | ⟨h1, h2⟩
+      · have h2' : ∀ t ∈ tokensOfList vt ns, NeutralTok Q t := fun t ht => (h2 t ht).mono hQ
+        rw [onehit_gen n out h1, fold_neutral tk ev _ h2' _ _ hB, pushB]
+        simp only [editListD, serializeList, ser_edit_free_list vt dec op s' ins hp1 ps ns h2,
+          rawsOf_tokensOfList vt hvt, List.append_assoc]
+      · rw [fold_neutral tk ev _ h1 _ _ hA, pushA, onehitL_gen ns _ h2]
+        simp only [editListD, serializeList, ser_edit_free vt dec op s' ins hp1 ps n h1,
+          rawsOf_tokensOf vt hvt, List.append_assoc]
+end
+
+variable (hhitA : ∀ (d at_ : Bytes) (knd : ElKind) (cs : List Node) (out : Bytes), Hit d at_ knd cs →
+  (tokensOf vt (.el p1 d at_ knd cs)).foldl (stepTok tk ev) (A, out) =
+    (A, out ++ serialize (editNodeD dec op s' ins p1 ps true (.el p1 d at_ knd cs))))
+
+include hvt hp1 hA pushA hhitA in
+mutual
+  theorem any_gen : ∀ (n : Node) (out : Bytes), AnyDomG vt P p1 Hit n →
+      (tokensOf vt n).foldl (stepTok tk ev) (A, out) =
+        (A, out ++ serialize (editNodeD dec op s' ins p1 ps true n))
+    | .verb raw mk, out, h => by
+      simp only [AnyDomG] at h
+      rw [tokensOf, fold_neutral tk ev _ h _ _ hA, pushA, hvt raw]
+      simp [editNodeD, serialize]
+    | .el nm d at_ knd cs, out, h => by
+      unfold AnyDomG at h
+      by_cases hnm : nm = p1
+      · subst hnm
+        rw [if_pos rfl] at h
+        exact hhitA d at_ knd cs out h
+      · rw [if_neg hnm] at h
+        obtain ⟨hnP, hrec⟩ := h
+        have hb : (nm == p1) = false := by
+          cases hb : (nm == p1) with
+          | false => rfl
+          | true => exact absurd (beq_iff_eq.mp hb) hnm
+        cases knd with
+        | selfClosing =>
+          have hn : ∀ t ∈ tokensOf vt (.el nm d at_ .selfClosing cs), NeutralTok P t := by
+            intro t ht; simp [tokensOf] at ht; subst ht; exact neutral_of_name hnP
+          rw [fold_neutral tk ev _ hn _ _ hA, pushA, rawsOf_tokensOf vt hvt]
+          simp [editNodeD, hb, serialize]
+        | void =>
+          have hn : ∀ t ∈ tokensOf vt (.el nm d at_ .void cs), NeutralTok P t := by
+            intro t ht; simp [tokensOf] at ht; subst ht; exact neutral_of_name hnP
+          rw [fold_neutral tk ev _ hn _ _ hA, pushA, rawsOf_tokensOf vt hvt]
+          simp [editNodeD, hb, serialize]
+        | raw =>
+          have hn : ∀ t ∈ tokensOf vt (.el nm d at_ .raw cs), NeutralTok P t := by
+            intro t ht
+            simp only [tokensOf, List.mem_cons, List.mem_append, List.not_mem_nil, or_false] at ht
+            rcases ht with e | e | e
+            · subst e; exact neutral_of_name hnP
+            · exact neutral_textToks P _ t e
+            · subst e; exact neutral_of_name hnP
+          rw [fold_neutral tk ev _ hn _ _ hA, pushA, rawsOf_tokensOf vt hvt]
+          simp [editNodeD, hb]
+        | normal =>
+          simp only at hrec
+          rw [tokensOf_el_normal, foldl_cons_append_single]
+          have hst : NeutralTok P (startTok nm d at_) := neutral_of_name hnP
+          have hen : NeutralTok P (endTok nm d) := neutral_of_name hnP
+          rw [stepTok_neutral tk ev hA hst, pushA, anyList_gen cs _ hrec,
+            stepTok_neutral tk ev hA hen, pushA]
+          congr 1
+          simp [editNodeD, hb, serialize, startTok, endTok, List.append_assoc]
+  theorem anyList_gen : ∀ (ns : List Node) (out : Bytes), AnyDomGList vt P p1 Hit ns →
+      (tokensOfList vt ns).foldl (stepTok tk ev) (A, out) =
+        (A, out ++ serializeList (editListD dec op s' ins p1 ps true ns))
+    | [], out, _ => by simp [tokensOfList, editListD, serializeList]
+    | n :: ns, out, h => by
+      unfold AnyDomGList at h
+      rw [tokensOfList_cons, List.foldl_append, any_gen n out h.1, anyList_gen ns _ h.2]
+      simp [editListD, serializeList, List.append_assoc]
+end
+
+end generic
+
+/-! ### replace: the whole document -/
+
+/-- replace with a one-element path: every (non-nested) occurrence anywhere is a target -/
+theorem runToks_R1 (hvt : VtLossless vt) (m : List Bytes) (p1 : Bytes) (doc : List Node)
+    (h : AnyDomGList vt [p1] p1 (fun _ _ knd cs => TargetR vt [p1] p1 knd cs) doc) :
+    runToks tk ev (vis .replace sel content [] p1 [] false) (tokensOfList vt doc) =
+      serializeList (editListD (decOf ev) .replace (selN sel) (.verb content m) p1 [] true doc) := by
+  unfold runToks
+  rw [new_eq_stG]
+  have hA := stNames_stG VKind.replace sel content (P := [p1]) none [] p1 [] (by simp) (fun _ h => by cases h)
+  rw [anyList_gen tk ev vt (decOf ev) .replace (selN sel) (.verb content m) [p1] p1 []
+    (fun _ _ knd cs => TargetR vt [p1] p1 knd cs) hvt (by simp) hA (push_stG _ _ _ _ _ _ _)
+    (fun d at_ knd cs out hh => by
+      rw [target_R tk ev sel content vt hvt (by simp) hh none [] out m, editNodeD_target]; rfl)
+    doc [] h, endHtml_stG]
+  simp
+
+/-- replace with a longer path: the first path element occurs once, its descendants along the path
+once each, the last one any number of times as children of the last but one -/
+theorem runToks_Rn (hvt : VtLossless vt) (m : List Bytes) (p1 a : Bytes) (rest : List Bytes)
+    (hnd : (p1 :: a :: rest).Nodup) (doc : List Node)
+    (h : OneHitL vt (p1 :: a :: rest) p1
+      (fun _ _ knd cs => ChildDomR vt (p1 :: a :: rest) (a :: rest) p1 knd cs) doc) :
+    runToks tk ev (vis .replace sel content [] p1 (a :: rest) false) (tokensOfList vt doc) =
+      serializeList (editListD (decOf ev) .replace (selN sel) (.verb content m) p1 (a :: rest) true doc) := by
+  unfold runToks
+  rw [new_eq_stG]
+  have hA := stNames_stG VKind.replace sel content (P := p1 :: a :: rest) none [] p1 (a :: rest)
+    (by simp) (fun _ h => by cases h)
+  have htm : zEndCur p1 (a :: rest) ∈ p1 :: a :: rest := zEndCur_mem p1 (a :: rest)
+  rw [onehitL_gen tk ev vt (decOf ev) .replace (selN sel) (.verb content m) (p1 :: a :: rest) p1 (a :: rest)
+    (fun _ _ knd cs => ChildDomR vt (p1 :: a :: rest) (a :: rest) p1 knd cs)
+    (A := stG .replace sel content none [] p1 (a :: rest))
+    (B := stX .replace sel content (zEndBefore [] p1 (a :: rest)) (zEndCur p1 (a :: rest)))
+    (Q := [zEndCur p1 (a :: rest)])
+    hvt (by simp) hA (push_stG _ _ _ _ _ _ _) (stNames_stX _ _ _ _ _) (push_stX _ _ _ _ _)
+    (fun x hx => by simp at hx; exact hx ▸ htm)
+    (fun d at_ knd cs out hh => by
+      rw [elem_R tk ev sel content vt hvt m (a :: rest) [] p1 d at_ knd cs none out hh (by simp)
+        (fun x hx => List.mem_cons_of_mem _ hx) hnd (fun _ h => by cases h)]
+      congr 2
+      simp [editNodeD])
+    doc [] h]
+  simp [endHtml, stX, stG]
+
+
+/-! ### running one html filter over a token list -/
+
+/-- the token loop of `filter` over all tokens, then `end()` -/
+def runToks (v : Visitor) (toks : List Tok) : Bytes :=
+  (toks.foldl (stepTok tk ev) (HtmlSt.new v, [])).2 ++ endHtml (toks.foldl (stepTok tk ev) (HtmlSt.new v, [])).1
+
+theorem new_eq_stG (p1 : Bytes) (ps : List Bytes) :
+    HtmlSt.new (vis k sel content [] p1 ps false) = stG k sel content none [] p1 ps := rfl
+
+theorem endHtml_stG (lv : Option Bytes) (before : List Bytes) (cur : Bytes) (after : List Bytes) :
+    endHtml (stG k sel content lv before cur after) = [] := rfl
+
+theorem runToks_AP (hk : k = .append ∨ k = .prepend) (hvt : VtLossless vt) {P : List Bytes} (m : List Bytes)
+    (p1 : Bytes) (ps : List Bytes) (hp1 : p1 ∈ P) (hps : ∀ a ∈ ps, a ∈ P) (doc : List Node)
+    (h : AnyDomAPList tk k sel vt P p1 ps doc) :
+    runToks tk ev (vis k sel content [] p1 ps false) (tokensOfList vt doc) =
+      serializeList (editListD (decOf ev) (opOf k) (selN sel) (.verb content m) p1 ps true doc) := by
+  unfold runToks
+  rw [new_eq_stG, anyList_AP tk ev k sel content vt hk hvt m p1 ps hp1 hps doc [] h, endHtml_stG]
+  simp
 
 end
 
